@@ -216,6 +216,12 @@ Proof.
   - rewrite !Zmod_0_r in *. subst. reflexivity.
   - rewrite Z.mul_mod, Ha, Hb, <- Z.mul_mod by assumption. reflexivity.
 Qed.
+#[global] Instance eqmod_opp n : Proper (eqmod n ==> eqmod n) Z.opp.
+Proof.
+  intros a a' Ha. unfold eqmod in *. destruct (Z.eq_dec n 0) as [->|Hn].
+  - rewrite !Zmod_0_r in *. subst. reflexivity.
+  - rewrite <- (opp_mod_idemp a), <- (opp_mod_idemp a'), Ha. reflexivity.
+Qed.
 Lemma eqmod_mod n a : eqmod n (a mod n) a.
 Proof. unfold eqmod. destruct (Z.eq_dec n 0) as [->|Hn]; [now rewrite !Zmod_0_r|]. apply Z.mod_mod. assumption. Qed.
 Lemma eqmod_of_eq n a b : a = b -> eqmod n a b.
@@ -410,6 +416,211 @@ Proof.
   assert (2 ^ k <= N / 2) by (apply Z.div_le_lower_bound; lia). lia.
 Qed.
 
+(* ---- systems without group elements ---- *)
+(* ---------------------------------------------------------------- nth *)
+Lemma valid_iota N r : 1 < N -> unit N r -> valid_mod (N * N) (iota N r) = true.
+Proof.
+  intros HN Hr. apply valid_mod_iff; [nia|]. split; [apply powmod_range; nia | apply unit_iota; [lia | assumption]].
+Qed.
+
+Theorem nth_complete n rho alpha e :
+  1 < n -> unit n rho -> unit n alpha ->
+  nth_verify n (iota n rho) (nth_commit n alpha) (nth_respond n rho alpha e) e = Some true.
+Proof.
+  intros Hn Hrho Ha. unfold nth_verify, nth_commit, nth_respond.
+  rewrite valid_resp_nonce by assumption. fold (iota n alpha). rewrite valid_iota by assumption. cbn [guard].
+  fold (iota n ((expI n rho e * alpha) mod n)). rewrite nth_linear by assumption.
+  rewrite Z.eqb_refl. reflexivity.
+Qed.
+
+(* ---------------------------------------------------------------- enc *)
+Theorem enc_complete nh s t n0 k rho alpha r mu gamma e K S A C z1 z2 z3 :
+  1 < nh -> unit nh s -> unit nh t -> 1 < n0 -> 2 ^ 769 <= n0 -> unit n0 rho -> unit n0 r ->
+  enc n0 k rho = Some K ->
+  enc_commit nh s t n0 k alpha r mu gamma = Some (S, A, C) ->
+  enc_respond n0 k rho alpha r mu gamma e = (z1, z2, z3) ->
+  in_leps z1 = true ->
+  enc_verify nh s t n0 K S A C z1 z2 z3 e = Some true.
+Proof.
+  intros Hnh Hs Ht Hn0 Hbig Hrho Hr HK Hcom Hresp Hrange.
+  apply enc_Some_inv in HK as [-> _].
+  unfold enc_commit in Hcom. destruct (enc n0 alpha r) as [A'|] eqn:EA; [|discriminate].
+  apply enc_Some_inv in EA as [-> _]. injection Hcom as <- <- <-.
+  unfold enc_respond in Hresp. injection Hresp as <- <- <-.
+  unfold enc_verify. rewrite validate_encval, valid_resp_nonce, Hrange, ped_complete by assumption. cbn [guard].
+  apply enc_eq_ok.
+  - apply (half_bound 768); [lia | exact Hbig | apply in_leps_iff; exact Hrange].
+  - apply enc_linear; assumption.
+Qed.
+
+(* ---------------------------------------------------------------- mul *)
+Lemma validate_randomize N c r : 1 < N -> unit (N * N) c -> unit N r -> validate_ct N (randomize N c r) = true.
+Proof.
+  intros HN Hc Hr. unfold randomize. apply validate_ct_unit_mod; [assumption|].
+  apply unit_mul; [assumption | apply unit_iota; [lia | assumption]].
+Qed.
+Lemma validate_add N c1 c2 : 1 < N -> unit (N * N) c1 -> unit (N * N) c2 -> validate_ct N (add N c1 c2) = true.
+Proof. intros HN H1 H2. unfold add. apply validate_ct_unit_mod; [assumption|]. apply unit_mul; assumption. Qed.
+
+(* no range check on Z either *)
+Theorem mul_complete n Y x rho rhox alpha r sn e X C A B z u v :
+  1 < n -> unit (n * n) Y -> unit n rho -> unit n rhox -> unit n r -> unit n sn ->
+  enc n x rhox = Some X ->
+  C = randomize n (mul n x Y) rho ->
+  mul_commit n Y alpha r sn = Some (A, B) ->
+  mul_respond n x rho rhox alpha r sn e = (z, u, v) ->
+  Z.abs z <= n / 2 ->
+  mul_verify n X Y C A B z u v e = Some true.
+Proof.
+  intros Hn HY Hrho Hrhox Hr Hsn HX -> Hcom Hresp Hz.
+  apply enc_Some_inv in HX as [-> _].
+  unfold mul_commit in Hcom. destruct (enc n alpha sn) as [B'|] eqn:EB; [|discriminate].
+  apply enc_Some_inv in EB as [-> _]. injection Hcom as <- <-.
+  unfold mul_respond in Hresp. injection Hresp as <- <- <-.
+  unfold mul_verify. rewrite !valid_resp_nonce by assumption.
+  rewrite validate_randomize by (try apply unit_mul_ct; assumption).
+  rewrite validate_encval by assumption. cbn [andb guard].
+  rewrite rand_linear by assumption. rewrite Z.eqb_refl. cbn [guard].
+  apply enc_eq_ok; [exact Hz | apply enc_linear; assumption].
+Qed.
+
+(* ---------------------------------------------------------------- affp *)
+Theorem affp_complete nh s t n1 n0 Kv x y sn rx r alpha beta rho rhox rhoy gamma m delta mu e
+        Dv Fp Xp A Bx By E S F T z1 z2 z3 z4 w wx wy :
+  1 < nh -> unit nh s -> unit nh t ->
+  1 < n0 -> 2 ^ 1793 <= n0 -> 1 < n1 -> 2 ^ 1793 <= n1 ->
+  unit (n0 * n0) Kv -> unit n0 sn -> unit n0 rho -> unit n1 rx -> unit n1 r -> unit n1 rhox -> unit n1 rhoy ->
+  enc n0 y sn = Some Dv -> enc n1 y r = Some Fp -> enc n1 x rx = Some Xp ->
+  affp_commit nh s t n1 n0 Kv x y alpha beta rho rhox rhoy gamma m delta mu = Some (A, Bx, By, E, S, F, T) ->
+  affp_respond n1 n0 x y sn rx r alpha beta rho rhox rhoy gamma m delta mu e = (z1, z2, z3, z4, w, wx, wy) ->
+  in_leps z1 = true -> in_lprimeeps z2 = true ->
+  affp_verify nh s t n1 n0 Kv (add n0 (mul n0 x Kv) Dv) Fp Xp A Bx By E S F T z1 z2 z3 z4 w wx wy e = Some true.
+Proof.
+  intros Hnh Hs Ht Hn0 Hb0 Hn1 Hb1 HK Hsn Hrho Hrx Hr Hrhox Hrhoy HD HF HX Hcom Hresp Hr1 Hr2.
+  apply enc_Some_inv in HD as [-> _]. apply enc_Some_inv in HF as [-> _]. apply enc_Some_inv in HX as [-> _].
+  unfold affp_commit in Hcom.
+  destruct (enc n0 beta rho) as [c|] eqn:E0; [|discriminate].
+  destruct (enc n1 alpha rhox) as [Bx'|] eqn:E1; [|discriminate].
+  destruct (enc n1 beta rhoy) as [By'|] eqn:E2; [|discriminate].
+  apply enc_Some_inv in E0 as [-> _]. apply enc_Some_inv in E1 as [-> _]. apply enc_Some_inv in E2 as [-> _].
+  injection Hcom as <- <- <- <- <- <- <-.
+  unfold affp_respond in Hresp. injection Hresp as <- <- <- <- <- <- <-.
+  assert (Hz2 : Z.abs (e * y + beta) <= n0 / 2)
+    by (apply (half_bound 1792); [lia | exact Hb0 | apply in_lprimeeps_iff; exact Hr2]).
+  assert (Hz2' : Z.abs (e * y + beta) <= n1 / 2)
+    by (apply (half_bound 1792); [lia | exact Hb1 | apply in_lprimeeps_iff; exact Hr2]).
+  assert (Hz1 : Z.abs (e * x + alpha) <= n1 / 2).
+  { apply (half_bound 1792); [lia | exact Hb1 |]. apply in_leps_iff in Hr1.
+    assert (2 ^ 768 < 2 ^ 1792) by (apply Z.pow_lt_mono_r; lia). lia. }
+  unfold affp_verify.
+  rewrite validate_add by (try apply unit_encval; try apply unit_mul_ct; assumption).
+  rewrite !validate_encval by assumption.
+  rewrite !valid_resp_nonce by assumption. rewrite Hr1, Hr2.
+  cbn [andb guard]. rewrite enc_encval by exact Hz2.
+  rewrite aff_linear by assumption. rewrite Z.eqb_refl. cbn [guard].
+  rewrite enc_eq_ok; [| exact Hz1 | apply enc_linear; assumption].
+  rewrite enc_eq_ok; [| exact Hz2' | apply enc_linear; assumption].
+  rewrite !ped_complete by assumption. reflexivity.
+Qed.
+
+(* ---------------------------------------------------------------- fac *)
+Lemma powmod_expI n x k : 0 < n -> 0 <= k -> powmod n x k = expI n x k.
+Proof. intros Hn Hk. rewrite powmod_spec, expI_nonneg by assumption. reflexivity. Qed.
+
+Lemma fac_relation nh s t pp qq alpha nu sigma r e :
+  1 < nh -> unit nh s -> unit nh t -> 0 <= pp * qq ->
+  let Q := ped_commit nh s t qq nu in
+  (expI nh Q (e * pp + alpha) * expI nh t (e * (sigma - nu * pp) + r)) mod nh
+  = (expI nh ((powmod nh s (pp * qq) * expI nh t sigma) mod nh) e * ((expI nh Q alpha * expI nh t r) mod nh)) mod nh.
+Proof.
+  intros Hnh Hs Ht Hpq Q. assert (n0 : nh <> 0) by lia.
+  assert (HQ : unit nh Q) by (apply unit_ped_commit; assumption).
+  transitivity ((expI nh s (pp * qq * e) * expI nh t (sigma * e + r) * expI nh Q alpha) mod nh).
+  - rewrite (expI_add nh Q (e * pp) alpha) by assumption.
+    unfold Q at 1, ped_commit.
+    rewrite expI_mulmod_base by (try apply unit_expI; assumption).
+    rewrite !expI_expI by assumption.
+    replace (sigma * e + r) with (nu * (e * pp) + (e * (sigma - nu * pp) + r)) by ring.
+    rewrite (expI_add nh t (nu * (e * pp))) by assumption.
+    replace (qq * (e * pp)) with (pp * qq * e) by ring.
+    modring nh n0.
+  - rewrite powmod_expI by lia.
+    rewrite expI_mulmod_base by (try apply unit_expI; assumption).
+    rewrite !expI_expI by assumption.
+    rewrite (expI_add nh t (sigma * e) r) by assumption.
+    modring nh n0.
+Qed.
+
+Theorem fac_complete nh s t pp qq alpha beta mu nu sigma r x y e P Q A B T z1 z2 w1 w2 v :
+  1 < nh -> unit nh s -> unit nh t -> 0 <= pp * qq ->
+  fac_commit nh s t pp qq alpha beta mu nu r x y = (P, Q, A, B, T) ->
+  fac_respond pp qq alpha beta mu nu sigma r x y e = (z1, z2, w1, w2, v) ->
+  in_leps1rootn z1 = true -> in_leps1rootn z2 = true ->
+  fac_verify (pp * qq) nh s t P Q A B T sigma z1 z2 w1 w2 v e = Some true.
+Proof.
+  intros Hnh Hs Ht Hpq Hcom Hresp H1 H2.
+  unfold fac_commit in Hcom. cbv zeta in Hcom. injection Hcom as <- <- <- <- <-.
+  unfold fac_respond in Hresp. injection Hresp as <- <- <- <- <-.
+  unfold fac_verify. rewrite !ped_complete by assumption. cbn [guard]. cbv zeta.
+  rewrite fac_relation by assumption. rewrite Z.eqb_refl, H1, H2. reflexivity.
+Qed.
+
+(* ---------------------------------------------------------------- prm *)
+Lemma pow_mod_order n t phi k : 0 < n -> 0 < phi -> 0 <= k -> t ^ phi mod n = 1 mod n ->
+  t ^ (k mod phi) mod n = t ^ k mod n.
+Proof.
+  intros Hn Hphi Hk Hord.
+  rewrite (Z.div_mod k phi) at 2 by lia.
+  pose proof (Z.mod_pos_bound k phi Hphi). pose proof (Z.div_pos k phi Hk Hphi).
+  rewrite Z.pow_add_r, Z.pow_mul_r by lia.
+  rewrite Z.mul_mod by lia.
+  rewrite (Zpower_mod (t ^ phi)) by lia. rewrite Hord. rewrite <- Zpower_mod by lia. rewrite Z.pow_1_l by lia.
+  rewrite <- Z.mul_mod by lia. rewrite Z.mul_1_l. reflexivity.
+Qed.
+
+Lemma valid_big_unit_mod n x : 1 < n -> unit n x -> valid_big n (x mod n) = true.
+Proof.
+  intros Hn Hx. unfold valid_big. rewrite gcd_mod_spec by lia. rewrite gcd_mod_l by lia.
+  unfold unit in Hx. rewrite Hx. pose proof (Z.mod_pos_bound x n ltac:(lia)).
+  destruct (Z.eq_dec (x mod n) 0) as [E|E].
+  - exfalso. rewrite <- (gcd_mod_l x n) in Hx by lia. rewrite E, Z.gcd_0_l in Hx. lia.
+  - destruct (Z.ltb_spec 0 (x mod n)); [|lia]. destruct (Z.ltb_spec (x mod n) n); [|lia]. reflexivity.
+Qed.
+
+Theorem prm_complete n t phi lambda :
+  1 < n -> 0 < phi -> 0 <= lambda -> unit n t -> powmod n t phi = 1 ->
+  let s := powmod n t lambda in
+  ped_validate n s t = true ->
+  forall al es, length al = length es -> Forall (fun a => 0 <= a) al ->
+  Forall (fun a => a <> 1) (prm_commit n t al) ->
+  Forall (fun z => valid_big n z = true) (prm_respond phi lambda al es) ->
+  prm_verify n s t (prm_commit n t al) (prm_respond phi lambda al es) es = Some true.
+Proof.
+  intros Hn Hphi Hl Ht Hord s Hval al es Hlen Hpos Hne Hzs.
+  unfold prm_verify. rewrite Hval. cbn [guard].
+  assert (Hr : prm_rounds n s t (prm_commit n t al) (prm_respond phi lambda al es) es = true).
+  { clear Hval. unfold prm_commit, prm_respond in *.
+    revert es Hlen Hzs. induction al as [|a al IH]; intros [|e es] Hlen Hzs; try discriminate; [reflexivity|].
+    cbn [map combine prm_rounds] in *.
+    inversion Hpos as [|? ? Ha Hpos']; subst. inversion Hne as [|? ? Hne1 Hne']; subst.
+    inversion Hzs as [|? ? Hz Hzs']; subst.
+    rewrite IH by (try assumption; cbn in Hlen; lia).
+    rewrite Hz. rewrite andb_true_r.
+    assert (Hva : valid_big n (powmod n t a) = true)
+      by (rewrite powmod_spec by lia; apply valid_big_unit_mod; [lia | apply unit_pow; assumption]).
+    rewrite Hva. cbn [andb].
+    destruct (Z.eqb_spec (powmod n t a) 1) as [E1|_]; [contradiction|]. cbn [negb andb].
+    apply Z.eqb_eq. destruct e.
+    - assert (Hord' : t ^ phi mod n = 1 mod n).
+      { rewrite powmod_spec in Hord by lia. rewrite Hord. symmetry. apply Z.mod_small. lia. }
+      pose proof (Z.mod_pos_bound (a + lambda) phi Hphi).
+      rewrite powmod_spec by lia. rewrite pow_mod_order by (try assumption; lia).
+      unfold s. rewrite !powmod_spec by lia. rewrite Z.pow_add_r by lia.
+      rewrite <- Z.mul_mod by lia. reflexivity.
+    - reflexivity. }
+  rewrite Hr. reflexivity.
+Qed.
+
 Section Systems.
   Context {G : Type}.
   Variables (gadd : G -> G -> G) (gneg : G -> G) (gzero : G) (smul : Z -> G -> G).
@@ -505,42 +716,6 @@ Section Systems.
       apply gadd_swap4.
   Qed.
 
-  (* ---------------------------------------------------------------- nth *)
-  Lemma valid_iota N r : 1 < N -> unit N r -> valid_mod (N * N) (iota N r) = true.
-  Proof.
-    intros HN Hr. apply valid_mod_iff; [nia|]. split; [apply powmod_range; nia | apply unit_iota; [lia | assumption]].
-  Qed.
-
-  Theorem nth_complete n rho alpha e :
-    1 < n -> unit n rho -> unit n alpha ->
-    nth_verify n (iota n rho) (nth_commit n alpha) (nth_respond n rho alpha e) e = Some true.
-  Proof.
-    intros Hn Hrho Ha. unfold nth_verify, nth_commit, nth_respond.
-    rewrite valid_resp_nonce by assumption. fold (iota n alpha). rewrite valid_iota by assumption. cbn [guard].
-    fold (iota n ((expI n rho e * alpha) mod n)). rewrite nth_linear by assumption.
-    rewrite Z.eqb_refl. reflexivity.
-  Qed.
-
-  (* ---------------------------------------------------------------- enc *)
-  Theorem enc_complete nh s t n0 k rho alpha r mu gamma e K S A C z1 z2 z3 :
-    1 < nh -> unit nh s -> unit nh t -> 1 < n0 -> 2 ^ 769 <= n0 -> unit n0 rho -> unit n0 r ->
-    enc n0 k rho = Some K ->
-    enc_commit nh s t n0 k alpha r mu gamma = Some (S, A, C) ->
-    enc_respond n0 k rho alpha r mu gamma e = (z1, z2, z3) ->
-    in_leps z1 = true ->
-    enc_verify nh s t n0 K S A C z1 z2 z3 e = Some true.
-  Proof.
-    intros Hnh Hs Ht Hn0 Hbig Hrho Hr HK Hcom Hresp Hrange.
-    apply enc_Some_inv in HK as [-> _].
-    unfold enc_commit in Hcom. destruct (enc n0 alpha r) as [A'|] eqn:EA; [|discriminate].
-    apply enc_Some_inv in EA as [-> _]. injection Hcom as <- <- <-.
-    unfold enc_respond in Hresp. injection Hresp as <- <- <-.
-    unfold enc_verify. rewrite validate_encval, valid_resp_nonce, Hrange, ped_complete by assumption. cbn [guard].
-    apply enc_eq_ok.
-    - apply (half_bound 768); [lia | exact Hbig | apply in_leps_iff; exact Hrange].
-    - apply enc_linear; assumption.
-  Qed.
-
   (* ---------------------------------------------------------------- logstar *)
   Theorem logstar_complete nh s t n0 Gb x rho alpha r mu gamma e C S A Y D z1 z2 z3 :
     1 < nh -> unit nh s -> unit nh t -> 1 < n0 -> 2 ^ 769 <= n0 -> unit n0 rho -> unit n0 r ->
@@ -592,37 +767,6 @@ Section Systems.
     - apply enc_linear; assumption.
   Qed.
 
-  (* ---------------------------------------------------------------- mul *)
-  Lemma validate_randomize N c r : 1 < N -> unit (N * N) c -> unit N r -> validate_ct N (randomize N c r) = true.
-  Proof.
-    intros HN Hc Hr. unfold randomize. apply validate_ct_unit_mod; [assumption|].
-    apply unit_mul; [assumption | apply unit_iota; [lia | assumption]].
-  Qed.
-  Lemma validate_add N c1 c2 : 1 < N -> unit (N * N) c1 -> unit (N * N) c2 -> validate_ct N (add N c1 c2) = true.
-  Proof. intros HN H1 H2. unfold add. apply validate_ct_unit_mod; [assumption|]. apply unit_mul; assumption. Qed.
-
-  (* no range check on Z either *)
-  Theorem mul_complete n Y x rho rhox alpha r sn e X C A B z u v :
-    1 < n -> unit (n * n) Y -> unit n rho -> unit n rhox -> unit n r -> unit n sn ->
-    enc n x rhox = Some X ->
-    C = randomize n (mul n x Y) rho ->
-    mul_commit n Y alpha r sn = Some (A, B) ->
-    mul_respond n x rho rhox alpha r sn e = (z, u, v) ->
-    Z.abs z <= n / 2 ->
-    mul_verify n X Y C A B z u v e = Some true.
-  Proof.
-    intros Hn HY Hrho Hrhox Hr Hsn HX -> Hcom Hresp Hz.
-    apply enc_Some_inv in HX as [-> _].
-    unfold mul_commit in Hcom. destruct (enc n alpha sn) as [B'|] eqn:EB; [|discriminate].
-    apply enc_Some_inv in EB as [-> _]. injection Hcom as <- <-.
-    unfold mul_respond in Hresp. injection Hresp as <- <- <-.
-    unfold mul_verify. rewrite !valid_resp_nonce by assumption.
-    rewrite validate_randomize by (try apply unit_mul_ct; assumption).
-    rewrite validate_encval by assumption. cbn [andb guard].
-    rewrite rand_linear by assumption. rewrite Z.eqb_refl. cbn [guard].
-    apply enc_eq_ok; [exact Hz | apply enc_linear; assumption].
-  Qed.
-
   (* ---------------------------------------------------------------- affg *)
   Theorem affg_complete nh s t n1 n0 Kv x y sn r alpha beta rho rhoy gamma m delta mu e
           Dv Fp A Bx By E S F T z1 z2 z3 z4 w wy :
@@ -656,45 +800,6 @@ Section Systems.
     rewrite aff_linear by assumption. rewrite Z.eqb_refl. cbn [guard].
     rewrite resp_eq, geqb_refl. cbn [guard].
     apply enc_eq_ok; [exact Hz2' | apply enc_linear; assumption].
-  Qed.
-
-  (* ---------------------------------------------------------------- affp *)
-  Theorem affp_complete nh s t n1 n0 Kv x y sn rx r alpha beta rho rhox rhoy gamma m delta mu e
-          Dv Fp Xp A Bx By E S F T z1 z2 z3 z4 w wx wy :
-    1 < nh -> unit nh s -> unit nh t ->
-    1 < n0 -> 2 ^ 1793 <= n0 -> 1 < n1 -> 2 ^ 1793 <= n1 ->
-    unit (n0 * n0) Kv -> unit n0 sn -> unit n0 rho -> unit n1 rx -> unit n1 r -> unit n1 rhox -> unit n1 rhoy ->
-    enc n0 y sn = Some Dv -> enc n1 y r = Some Fp -> enc n1 x rx = Some Xp ->
-    affp_commit nh s t n1 n0 Kv x y alpha beta rho rhox rhoy gamma m delta mu = Some (A, Bx, By, E, S, F, T) ->
-    affp_respond n1 n0 x y sn rx r alpha beta rho rhox rhoy gamma m delta mu e = (z1, z2, z3, z4, w, wx, wy) ->
-    in_leps z1 = true -> in_lprimeeps z2 = true ->
-    affp_verify nh s t n1 n0 Kv (add n0 (mul n0 x Kv) Dv) Fp Xp A Bx By E S F T z1 z2 z3 z4 w wx wy e = Some true.
-  Proof.
-    intros Hnh Hs Ht Hn0 Hb0 Hn1 Hb1 HK Hsn Hrho Hrx Hr Hrhox Hrhoy HD HF HX Hcom Hresp Hr1 Hr2.
-    apply enc_Some_inv in HD as [-> _]. apply enc_Some_inv in HF as [-> _]. apply enc_Some_inv in HX as [-> _].
-    unfold affp_commit in Hcom.
-    destruct (enc n0 beta rho) as [c|] eqn:E0; [|discriminate].
-    destruct (enc n1 alpha rhox) as [Bx'|] eqn:E1; [|discriminate].
-    destruct (enc n1 beta rhoy) as [By'|] eqn:E2; [|discriminate].
-    apply enc_Some_inv in E0 as [-> _]. apply enc_Some_inv in E1 as [-> _]. apply enc_Some_inv in E2 as [-> _].
-    injection Hcom as <- <- <- <- <- <- <-.
-    unfold affp_respond in Hresp. injection Hresp as <- <- <- <- <- <- <-.
-    assert (Hz2 : Z.abs (e * y + beta) <= n0 / 2)
-      by (apply (half_bound 1792); [lia | exact Hb0 | apply in_lprimeeps_iff; exact Hr2]).
-    assert (Hz2' : Z.abs (e * y + beta) <= n1 / 2)
-      by (apply (half_bound 1792); [lia | exact Hb1 | apply in_lprimeeps_iff; exact Hr2]).
-    assert (Hz1 : Z.abs (e * x + alpha) <= n1 / 2).
-    { apply (half_bound 1792); [lia | exact Hb1 |]. apply in_leps_iff in Hr1.
-      assert (2 ^ 768 < 2 ^ 1792) by (apply Z.pow_lt_mono_r; lia). lia. }
-    unfold affp_verify.
-    rewrite validate_add by (try apply unit_encval; try apply unit_mul_ct; assumption).
-    rewrite !validate_encval by assumption.
-    rewrite !valid_resp_nonce by assumption. rewrite Hr1, Hr2.
-    cbn [andb guard]. rewrite enc_encval by exact Hz2.
-    rewrite aff_linear by assumption. rewrite Z.eqb_refl. cbn [guard].
-    rewrite enc_eq_ok; [| exact Hz1 | apply enc_linear; assumption].
-    rewrite enc_eq_ok; [| exact Hz2' | apply enc_linear; assumption].
-    rewrite !ped_complete by assumption. reflexivity.
   Qed.
 
   (* ---------------------------------------------------------------- mulstar *)
@@ -751,103 +856,6 @@ Section Systems.
     - unfold A. rewrite !act_smul. rewrite !smul_smul, <- !smul_add. apply smul_cong. f_equal. ring.
   Qed.
 
-  (* ---------------------------------------------------------------- fac *)
-  Lemma powmod_expI n x k : 0 < n -> 0 <= k -> powmod n x k = expI n x k.
-  Proof. intros Hn Hk. rewrite powmod_spec, expI_nonneg by assumption. reflexivity. Qed.
-
-  Lemma fac_relation nh s t pp qq alpha nu sigma r e :
-    1 < nh -> unit nh s -> unit nh t -> 0 <= pp * qq ->
-    let Q := ped_commit nh s t qq nu in
-    (expI nh Q (e * pp + alpha) * expI nh t (e * (sigma - nu * pp) + r)) mod nh
-    = (expI nh ((powmod nh s (pp * qq) * expI nh t sigma) mod nh) e * ((expI nh Q alpha * expI nh t r) mod nh)) mod nh.
-  Proof.
-    intros Hnh Hs Ht Hpq Q. assert (n0 : nh <> 0) by lia.
-    assert (HQ : unit nh Q) by (apply unit_ped_commit; assumption).
-    transitivity ((expI nh s (pp * qq * e) * expI nh t (sigma * e + r) * expI nh Q alpha) mod nh).
-    - rewrite (expI_add nh Q (e * pp) alpha) by assumption.
-      unfold Q at 1, ped_commit.
-      rewrite expI_mulmod_base by (try apply unit_expI; assumption).
-      rewrite !expI_expI by assumption.
-      replace (sigma * e + r) with (nu * (e * pp) + (e * (sigma - nu * pp) + r)) by ring.
-      rewrite (expI_add nh t (nu * (e * pp))) by assumption.
-      replace (qq * (e * pp)) with (pp * qq * e) by ring.
-      modring nh n0.
-    - rewrite powmod_expI by lia.
-      rewrite expI_mulmod_base by (try apply unit_expI; assumption).
-      rewrite !expI_expI by assumption.
-      rewrite (expI_add nh t (sigma * e) r) by assumption.
-      modring nh n0.
-  Qed.
-
-  Theorem fac_complete nh s t pp qq alpha beta mu nu sigma r x y e P Q A B T z1 z2 w1 w2 v :
-    1 < nh -> unit nh s -> unit nh t -> 0 <= pp * qq ->
-    fac_commit nh s t pp qq alpha beta mu nu r x y = (P, Q, A, B, T) ->
-    fac_respond pp qq alpha beta mu nu sigma r x y e = (z1, z2, w1, w2, v) ->
-    in_leps1rootn z1 = true -> in_leps1rootn z2 = true ->
-    fac_verify (pp * qq) nh s t P Q A B T sigma z1 z2 w1 w2 v e = Some true.
-  Proof.
-    intros Hnh Hs Ht Hpq Hcom Hresp H1 H2.
-    unfold fac_commit in Hcom. cbv zeta in Hcom. injection Hcom as <- <- <- <- <-.
-    unfold fac_respond in Hresp. injection Hresp as <- <- <- <- <-.
-    unfold fac_verify. rewrite !ped_complete by assumption. cbn [guard]. cbv zeta.
-    rewrite fac_relation by assumption. rewrite Z.eqb_refl, H1, H2. reflexivity.
-  Qed.
-
-  (* ---------------------------------------------------------------- prm *)
-  Lemma pow_mod_order n t phi k : 0 < n -> 0 < phi -> 0 <= k -> t ^ phi mod n = 1 mod n ->
-    t ^ (k mod phi) mod n = t ^ k mod n.
-  Proof.
-    intros Hn Hphi Hk Hord.
-    rewrite (Z.div_mod k phi) at 2 by lia.
-    pose proof (Z.mod_pos_bound k phi Hphi). pose proof (Z.div_pos k phi Hk Hphi).
-    rewrite Z.pow_add_r, Z.pow_mul_r by lia.
-    rewrite Z.mul_mod by lia.
-    rewrite (Zpower_mod (t ^ phi)) by lia. rewrite Hord. rewrite <- Zpower_mod by lia. rewrite Z.pow_1_l by lia.
-    rewrite <- Z.mul_mod by lia. rewrite Z.mul_1_l. reflexivity.
-  Qed.
-
-  Lemma valid_big_unit_mod n x : 1 < n -> unit n x -> valid_big n (x mod n) = true.
-  Proof.
-    intros Hn Hx. unfold valid_big. rewrite gcd_mod_spec by lia. rewrite gcd_mod_l by lia.
-    unfold unit in Hx. rewrite Hx. pose proof (Z.mod_pos_bound x n ltac:(lia)).
-    destruct (Z.eq_dec (x mod n) 0) as [E|E].
-    - exfalso. rewrite <- (gcd_mod_l x n) in Hx by lia. rewrite E, Z.gcd_0_l in Hx. lia.
-    - destruct (Z.ltb_spec 0 (x mod n)); [|lia]. destruct (Z.ltb_spec (x mod n) n); [|lia]. reflexivity.
-  Qed.
-
-  Theorem prm_complete n t phi lambda :
-    1 < n -> 0 < phi -> 0 <= lambda -> unit n t -> powmod n t phi = 1 ->
-    let s := powmod n t lambda in
-    ped_validate n s t = true ->
-    forall al es, length al = length es -> Forall (fun a => 0 <= a) al ->
-    Forall (fun a => a <> 1) (prm_commit n t al) ->
-    Forall (fun z => valid_big n z = true) (prm_respond phi lambda al es) ->
-    prm_verify n s t (prm_commit n t al) (prm_respond phi lambda al es) es = Some true.
-  Proof.
-    intros Hn Hphi Hl Ht Hord s Hval al es Hlen Hpos Hne Hzs.
-    unfold prm_verify. rewrite Hval. cbn [guard].
-    assert (Hr : prm_rounds n s t (prm_commit n t al) (prm_respond phi lambda al es) es = true).
-    { clear Hval. unfold prm_commit, prm_respond in *.
-      revert es Hlen Hzs. induction al as [|a al IH]; intros [|e es] Hlen Hzs; try discriminate; [reflexivity|].
-      cbn [map combine prm_rounds] in *.
-      inversion Hpos as [|? ? Ha Hpos']; subst. inversion Hne as [|? ? Hne1 Hne']; subst.
-      inversion Hzs as [|? ? Hz Hzs']; subst.
-      rewrite IH by (try assumption; cbn in Hlen; lia).
-      rewrite Hz. rewrite andb_true_r.
-      assert (Hva : valid_big n (powmod n t a) = true)
-        by (rewrite powmod_spec by lia; apply valid_big_unit_mod; [lia | apply unit_pow; assumption]).
-      rewrite Hva. cbn [andb].
-      destruct (Z.eqb_spec (powmod n t a) 1) as [E1|_]; [contradiction|]. cbn [negb andb].
-      apply Z.eqb_eq. destruct e.
-      - assert (Hord' : t ^ phi mod n = 1 mod n).
-        { rewrite powmod_spec in Hord by lia. rewrite Hord. symmetry. apply Z.mod_small. lia. }
-        pose proof (Z.mod_pos_bound (a + lambda) phi Hphi).
-        rewrite powmod_spec by lia. rewrite pow_mod_order by (try assumption; lia).
-        unfold s. rewrite !powmod_spec by lia. rewrite Z.pow_add_r by lia.
-        rewrite <- Z.mul_mod by lia. reflexivity.
-      - reflexivity. }
-    rewrite Hr. reflexivity.
-  Qed.
 End Systems.
 
 (* ---------------------------------------------------------------- range slack *)
@@ -1293,6 +1301,7 @@ Section ChallengeInj.
 
   Ltac inj_tac H :=
     apply flds_stream_inj in H; [| assumption | assumption];
+    cbv delta [sch_fields log_fields elog_fields logstar_fields affg_fields mulstar_fields encelg_fields] beta in H;
     repeat match type of H with
            | _ :: _ = _ :: _ => let H1 := fresh "Hf" in apply cons_eq_inv in H as [H1 H]
            end.
@@ -1378,6 +1387,7 @@ End ChallengeInj.
 
 Ltac inj_tac0 H :=
   apply flds_stream_inj in H; [| assumption | assumption];
+  cbv delta [nth_fields enc_fields dec_fields mul_fields affp_fields fac_fields mod_fields] beta in H;
   repeat match type of H with
          | _ :: _ = _ :: _ => let H1 := fresh "Hf" in apply cons_eq_inv in H as [H1 H]
          end.
@@ -1464,3 +1474,256 @@ Proof.
   intros W1 W2 H. unfold mod_challenge_items in H. inj_tac0 H.
   injection Hf as ->. injection Hf0 as ->. reflexivity.
 Qed.
+
+(* ================================================================================================ *)
+(* F. what the current code does NOT enforce                                                        *)
+(* ================================================================================================ *)
+
+Lemma guard_true_inv b k : guard b k = Some true -> b = true /\ k = Some true.
+Proof. destruct b; cbn [guard]; [auto | discriminate]. Qed.
+
+(* zkfac: Sigma is sent with the first message in the paper (Fig. 28) but pkg/zk/fac does not hash it:
+   from any accepted proof, (Sigma + d, V + d e) is accepted as well, for every d *)
+Theorem fac_sigma_not_bound n0 nh s t P Q A B T sigma z1 z2 w1 w2 v e d :
+  1 < nh -> unit nh s -> unit nh t -> 0 <= n0 ->
+  fac_verify n0 nh s t P Q A B T sigma z1 z2 w1 w2 v e = Some true ->
+  fac_verify n0 nh s t P Q A B T (sigma + d) z1 z2 w1 w2 (v + d * e) e = Some true.
+Proof.
+  intros Hnh Hs Ht Hn0 H. assert (nz : nh <> 0) by lia.
+  unfold fac_verify in *. cbv zeta in *.
+  apply guard_true_inv in H as [H1 H]. apply guard_true_inv in H as [H2 H].
+  apply guard_true_inv in H as [H3 H]. apply guard_true_inv in H as [H4 _].
+  rewrite H1, H2, H4. cbn [guard]. apply Z.eqb_eq in H3.
+  assert (Hsn : unit nh (powmod nh s n0)) by (apply unit_powmod; [lia | assumption]).
+  rewrite expI_mulmod_base in H3 by (try apply unit_expI; assumption).
+  rewrite expI_expI in H3 by assumption.
+  rewrite expI_mulmod_base by (try apply unit_expI; assumption).
+  rewrite expI_expI by assumption.
+  replace ((sigma + d) * e) with (sigma * e + d * e) by ring.
+  rewrite (expI_add nh t (sigma * e) (d * e)), (expI_add nh t v (d * e)) by assumption.
+  assert (E : (expI nh Q z1 * (expI nh t v * expI nh t (d * e) mod nh)) mod nh
+              = (expI nh (powmod nh s n0) e * (expI nh t (sigma * e) * expI nh t (d * e) mod nh) mod nh * T) mod nh).
+  { transitivity (((expI nh Q z1 * expI nh t v) mod nh * expI nh t (d * e)) mod nh); [modring nh nz|].
+    rewrite H3. modring nh nz. }
+  rewrite E, Z.eqb_refl. reflexivity.
+Qed.
+
+(* zkmod: Proof.IsValid is never called by Verify, so X and Z are not range checked: adding N to a response of an
+   accepted proof gives an accepted proof with a response outside [0, N).  Witness: N = 7 * 11, w = 2. *)
+Definition mod_example_ys : list Z := [5; 10; 31; 76].
+Definition mod_example_rs : list (bool * bool * Z * Z) := mod_respond 7 11 2 mod_example_ys.
+Definition mod_shift (n : Z) (r : bool * bool * Z * Z) : bool * bool * Z * Z :=
+  let '(a, b, x, z) := r in (a, b, x + n, z + n).
+
+Lemma mod_example_honest : mod_verify 77 2 mod_example_rs mod_example_ys = Some true.
+Proof. vm_compute. reflexivity. Qed.
+
+Theorem mod_response_range_refuted :
+  exists n w rs ys,
+    mod_verify n w rs ys = Some true /\
+    Forall (fun r : bool * bool * Z * Z => let '(_, _, x, z) := r in ~ (0 <= x < n) /\ ~ (0 <= z < n)) rs /\ rs <> [].
+Proof.
+  exists 77, 2, (map (mod_shift 77) mod_example_rs), mod_example_ys. split; [vm_compute; reflexivity|].
+  split; [|discriminate].
+  replace (map (mod_shift 77) mod_example_rs)
+    with ltac:(let l := eval vm_compute in (map (mod_shift 77) mod_example_rs) in exact l) by (vm_compute; reflexivity).
+  repeat constructor; lia.
+Qed.
+
+(* ================================================================================================ *)
+(* G. zkmod: one repetition of the honest prover verifies (partial: see mod_complete_todo in C10.v)  *)
+(* ================================================================================================ *)
+
+Lemma pow_1_mod n a k : 0 < n -> 0 <= k -> a mod n = 1 mod n -> a ^ k mod n = 1 mod n.
+Proof.
+  intros Hn Hk Ha. rewrite Zpower_mod by lia. rewrite Ha. rewrite <- Zpower_mod by lia.
+  rewrite Z.pow_1_l by lia. reflexivity.
+Qed.
+
+Section ModResponse.
+  Variables p q : Z.
+  Hypothesis Hp : 1 < p.
+  Hypothesis Hq : 1 < q.
+  Hypothesis Hpq : Z.gcd p q = 1.
+  Hypothesis Hp4 : p mod 4 = 3.
+  Hypothesis Hq4 : q mod 4 = 3.
+  Let n := p * q.
+  Let phi := (p - 1) * (q - 1).
+  Let m := (p / 2) * (q / 2).
+
+  Let Hn : 1 < n. Proof. unfold n. nia. Qed.
+
+  Lemma p_half : p = 2 * (p / 2) + 1 /\ Z.odd (p / 2) = true /\ 0 < p / 2.
+  Proof.
+    pose proof (Z.div_mod p 4 ltac:(lia)) as H4. rewrite Hp4 in H4.
+    assert (E : p / 2 = 2 * (p / 4) + 1).
+    { symmetry. apply (Z.div_unique p 2 (2 * (p / 4) + 1) 1); lia. }
+    pose proof (Z.div_pos p 4 ltac:(lia) ltac:(lia)).
+    rewrite E. repeat split; try lia. rewrite Z.add_comm, Z.odd_add_mul_2. reflexivity.
+  Qed.
+  Lemma q_half : q = 2 * (q / 2) + 1 /\ Z.odd (q / 2) = true /\ 0 < q / 2.
+  Proof.
+    pose proof (Z.div_mod q 4 ltac:(lia)) as H4. rewrite Hq4 in H4.
+    assert (E : q / 2 = 2 * (q / 4) + 1).
+    { symmetry. apply (Z.div_unique q 2 (2 * (q / 4) + 1) 1); lia. }
+    pose proof (Z.div_pos q 4 ltac:(lia) ltac:(lia)).
+    rewrite E. repeat split; try lia. rewrite Z.add_comm, Z.odd_add_mul_2. reflexivity.
+  Qed.
+
+  Lemma phi_4m : phi = 4 * m /\ Z.odd m = true /\ 0 < m.
+  Proof.
+    destruct p_half as [Ep [Op Pp]], q_half as [Eq [Oq Pq]]. unfold phi, m.
+    split; [rewrite Ep at 1; rewrite Eq at 1; ring|]. split; [rewrite Z.odd_mul, Op, Oq; reflexivity | nia].
+  Qed.
+
+  (* a residue that passes isQRmodPQ has order dividing m = phi/4 *)
+  Lemma qr_pq_order y : is_qr_pq p q y = true -> y ^ m mod n = 1 mod n.
+  Proof.
+    unfold is_qr_pq. rewrite andb_true_iff, !Z.eqb_eq. intros [H1 H2].
+    destruct p_half as [_ [_ Pp]], q_half as [_ [_ Pq]].
+    rewrite powmod_spec in H1, H2 by lia.
+    unfold n. apply crt_unique; try lia.
+    - apply Z.mod_divide; [lia|]. rewrite Zminus_mod. unfold m. rewrite Z.pow_mul_r by lia.
+      rewrite (pow_1_mod p (y ^ (p / 2)) (q / 2)) by (try lia; rewrite H1; symmetry; apply Z.mod_small; lia).
+      rewrite Z.sub_diag. apply Z.mod_0_l. lia.
+    - apply Z.mod_divide; [lia|]. rewrite Zminus_mod. unfold m. rewrite Z.mul_comm, Z.pow_mul_r by lia.
+      rewrite (pow_1_mod q (y ^ (q / 2)) (p / 2)) by (try lia; rewrite H2; symmetry; apply Z.mod_small; lia).
+      rewrite Z.sub_diag. apply Z.mod_0_l. lia.
+  Qed.
+
+  (* x = y'^(((phi+4)/8)^2 mod phi) is a fourth root of such a residue *)
+  Lemma fourth_root_ok y : y ^ m mod n = 1 mod n ->
+    let x := powmod n y (fourth_root_exp phi) in (x * x * (x * x)) mod n = y mod n.
+  Proof.
+    intros Hy x. destruct phi_4m as [Ephi [Om Pm]].
+    assert (Hphi : 0 < phi) by lia.
+    set (e' := (phi + 4) / 8).
+    assert (Ee : 2 * e' = m + 1).
+    { unfold e'. rewrite Ephi. destruct (Zodd_ex m (proj1 (Zodd_bool_iff m) Om)) as [j Hj].
+      replace (4 * m + 4) with ((j + 1) * 8) by lia. rewrite Z.div_mul by lia. lia. }
+    assert (He' : 0 <= e') by lia.
+    assert (Hfe : 0 <= fourth_root_exp phi) by (unfold fourth_root_exp; cbv zeta; apply Z.mod_pos_bound; lia).
+    unfold x. rewrite powmod_spec by lia.
+    replace (y ^ fourth_root_exp phi mod n * (y ^ fourth_root_exp phi mod n)
+             * (y ^ fourth_root_exp phi mod n * (y ^ fourth_root_exp phi mod n)))
+      with ((y ^ fourth_root_exp phi mod n) ^ 4) by ring.
+    rewrite <- Zpower_mod by lia. rewrite <- Z.pow_mul_r by lia. rewrite (Z.mul_comm _ 4), Z.pow_mul_r by lia.
+    unfold fourth_root_exp. cbv zeta. fold e'.
+    assert (Hy4 : (y ^ 4) ^ phi mod n = 1 mod n).
+    { rewrite <- Z.pow_mul_r by lia. rewrite Ephi. replace (4 * (4 * m)) with (m * 16) by ring.
+      rewrite Z.pow_mul_r by lia. apply pow_1_mod; try lia; exact Hy. }
+    rewrite (pow_mod_order n (y ^ 4) phi (e' * e')) by (try assumption; try lia; nia).
+    rewrite <- Z.pow_mul_r by nia.
+    replace (4 * (e' * e')) with (m * (m + 2) + 1) by nia.
+    rewrite Z.pow_add_r, Z.pow_1_r, Z.pow_mul_r by nia.
+    rewrite <- Z.mul_mod_idemp_l by lia. rewrite (pow_1_mod n (y ^ m) (m + 2)) by (try assumption; lia).
+    rewrite Z.mul_mod_idemp_l by lia. rewrite Z.mul_1_l. reflexivity.
+  Qed.
+
+  (* the candidate chosen by makeQuadraticResidue is (-1)^a w^b y modulo N *)
+  Lemma make_qr_value w y : let '(a, b, y') := make_qr p q w y in
+    y' mod n = ((if a then - y else y) * (if b then w else 1)) mod n.
+  Proof.
+    unfold make_qr. fold n. assert (nz : n <> 0) by lia.
+    destruct (is_qr_pq p q (y mod n)); [modring n nz|].
+    destruct (is_qr_pq p q (- (y mod n) mod n)); [modring n nz|].
+    destruct (is_qr_pq p q ((- (y mod n) mod n * w) mod n)); modring n nz.
+  Qed.
+
+  (* one repetition: under Euler's theorem for y, N invertible modulo phi, and the chosen candidate passing isQRmodPQ
+     (always true for the first three candidates; for the fourth it is the quadratic-residuosity fact left open) *)
+  Theorem mod_response_complete w y :
+    0 <= y < n ->
+    y ^ phi mod n = 1 mod n ->
+    (modinv phi n * n) mod phi = 1 ->
+    (let '(_, _, y') := make_qr p q w y in is_qr_pq p q y' = true) ->
+    mod_response n w y (mod_respond1 p q w y) = true.
+  Proof.
+    intros Hy Heuler Hinv Hqr. destruct phi_4m as [Ephi [Om Pm]]. assert (Hphi : 1 < phi) by lia.
+    unfold mod_respond1. fold n phi. cbv zeta.
+    pose proof (make_qr_value w y) as Hval.
+    destruct (make_qr p q w y) as [[a b] y'].
+    unfold mod_response. apply andb_true_iff. split; apply Z.eqb_eq.
+    - pose proof (modinv_range phi n ltac:(lia)) as Hr.
+      rewrite !powmod_spec by lia. rewrite <- Zpower_mod by lia. rewrite <- Z.pow_mul_r by lia.
+      pose proof (Z.div_mod (modinv phi n * n) phi ltac:(lia)) as Hd. rewrite Hinv in Hd.
+      assert (0 <= modinv phi n * n / phi) by (apply Z.div_pos; nia).
+      rewrite Hd. rewrite Z.pow_add_r, Z.pow_1_r, Z.pow_mul_r by lia.
+      rewrite <- Z.mul_mod_idemp_l by lia. rewrite (pow_1_mod n (y ^ phi)) by (try assumption; lia).
+      rewrite Z.mul_mod_idemp_l by lia. rewrite Z.mul_1_l. apply Z.mod_small. exact Hy.
+    - rewrite <- Hval. apply fourth_root_ok. apply qr_pq_order. exact Hqr.
+  Qed.
+End ModResponse.
+
+(* ================================================================================================ *)
+(* H. per-system phrasing of the slack and of the rejected degenerate responses                     *)
+(* ================================================================================================ *)
+
+Lemma enc_range_slack n0 k rho alpha r mu gamma e :
+  Z.abs e < 2 ^ 256 -> Z.abs k <= 2 ^ 256 -> Z.abs alpha <= 2 ^ 768 - 2 ^ 512 ->
+  in_leps (fst (fst (enc_respond n0 k rho alpha r mu gamma e))) = true.
+Proof. intros. cbn [enc_respond fst]. apply leps_slack; assumption. Qed.
+
+Lemma affg_range_slack n1 n0 x y sn r alpha beta rho rhoy gamma m delta mu e :
+  Z.abs e < 2 ^ 256 -> Z.abs x <= 2 ^ 256 -> Z.abs y <= 2 ^ 1280 ->
+  Z.abs alpha <= 2 ^ 768 - 2 ^ 512 -> Z.abs beta <= 2 ^ 1792 - 2 ^ 1536 ->
+  let '(z1, z2, _, _, _, _) := affg_respond n1 n0 x y sn r alpha beta rho rhoy gamma m delta mu e in
+  in_leps z1 = true /\ in_lprimeeps z2 = true.
+Proof. intros. cbn [affg_respond]. split; [apply leps_slack | apply lprimeeps_slack]; assumption. Qed.
+
+Lemma affp_range_slack n1 n0 x y sn rx r alpha beta rho rhox rhoy gamma m delta mu e :
+  Z.abs e < 2 ^ 256 -> Z.abs x <= 2 ^ 256 -> Z.abs y <= 2 ^ 1280 ->
+  Z.abs alpha <= 2 ^ 768 - 2 ^ 512 -> Z.abs beta <= 2 ^ 1792 - 2 ^ 1536 ->
+  let '(z1, z2, _, _, _, _, _) := affp_respond n1 n0 x y sn rx r alpha beta rho rhox rhoy gamma m delta mu e in
+  in_leps z1 = true /\ in_lprimeeps z2 = true.
+Proof. intros. cbn [affp_respond]. split; [apply leps_slack | apply lprimeeps_slack]; assumption. Qed.
+
+Lemma mulstar_range_slack n0 x rho alpha r gamma m e :
+  Z.abs e < 2 ^ 256 -> Z.abs x <= 2 ^ 256 -> Z.abs alpha <= 2 ^ 768 - 2 ^ 512 ->
+  in_leps (fst (fst (mulstar_respond n0 x rho alpha r gamma m e))) = true.
+Proof. intros. cbn [mulstar_respond fst]. apply leps_slack; assumption. Qed.
+
+Lemma encelg_range_slack q n0 x rho b alpha mu r beta gamma e :
+  Z.abs e < 2 ^ 256 -> Z.abs x <= 2 ^ 256 -> Z.abs alpha <= 2 ^ 768 - 2 ^ 512 ->
+  in_leps (fst (fst (fst (encelg_respond q n0 x rho b alpha mu r beta gamma e)))) = true.
+Proof. intros. cbn [encelg_respond fst]. apply leps_slack; assumption. Qed.
+
+Lemma fac_range_slack p q alpha beta mu nu sigma r x y e :
+  Z.abs e < 2 ^ 256 -> Z.abs p <= 2 ^ 1024 -> Z.abs q <= 2 ^ 1024 -> Z.abs alpha <= 2 ^ 1792 -> Z.abs beta <= 2 ^ 1792 ->
+  let '(z1, z2, _, _, _) := fac_respond p q alpha beta mu nu sigma r x y e in
+  in_leps1rootn z1 = true /\ in_leps1rootn z2 = true.
+Proof. intros. cbn [fac_respond]. split; apply fac_slack; assumption. Qed.
+
+(* zkdec / zkmul: the proviso is EncWithNonce's guard *)
+Lemma dec_range_slack n0 y rho alpha mu nu r e :
+  Z.abs e < 2 ^ 256 -> Z.abs y <= 2 ^ 256 -> Z.abs alpha <= n0 / 2 - 2 ^ 512 ->
+  Z.abs (fst (fst (dec_respond n0 y rho alpha mu nu r e))) <= n0 / 2.
+Proof.
+  intros He Hy Ha. cbn [dec_respond fst].
+  assert (Z.abs (e * y) < 2 ^ 512).
+  { rewrite Z.abs_mul. change (2 ^ 512) with (2 ^ 256 * 2 ^ 256). pose proof (Z.abs_nonneg e). pose proof (Z.abs_nonneg y). nia. }
+  pose proof (Z.abs_triangle (e * y) alpha). lia.
+Qed.
+Lemma mul_range_slack n x rho rhox alpha r s e :
+  Z.abs e < 2 ^ 256 -> Z.abs x <= 2 ^ 256 -> Z.abs alpha <= n / 2 - 2 ^ 512 ->
+  Z.abs (fst (fst (mul_respond n x rho rhox alpha r s e))) <= n / 2.
+Proof.
+  intros He Hx Ha. cbn [mul_respond fst].
+  assert (Z.abs (e * x) < 2 ^ 512).
+  { rewrite Z.abs_mul. change (2 ^ 512) with (2 ^ 256 * 2 ^ 256). pose proof (Z.abs_nonneg e). pose proof (Z.abs_nonneg x). nia. }
+  pose proof (Z.abs_triangle (e * x) alpha). lia.
+Qed.
+
+(* group-only systems: the only "range" of a response is being a non-zero scalar; zero is rejected *)
+Section ZeroRejected.
+  Context {G : Type}.
+  Variables (gadd : G -> G -> G) (smul : Z -> G -> G) (geqb : G -> G -> bool) (gis_id : G -> bool) (gbase : G) (q : Z).
+  Lemma sch_zero_rejected gen X C z e : sc_zero q z = true -> sch_verify gadd smul geqb gis_id q gen X C z e = Some false.
+  Proof. intro H. unfold sch_verify. rewrite H. reflexivity. Qed.
+  Lemma log_zero_rejected H X Y A B C z1 z2 e :
+    sc_zero q z1 = true \/ sc_zero q z2 = true -> log_verify gadd smul geqb gis_id gbase q H X Y A B C z1 z2 e = Some false.
+  Proof. intros [E|E]; unfold log_verify; rewrite E; rewrite ?orb_true_r; cbn [orb negb]; guards. Qed.
+  Lemma elog_zero_rejected L M X H Y A Np B z u e :
+    sc_zero q z = true \/ sc_zero q u = true -> elog_verify gadd smul geqb gis_id gbase q L M X H Y A Np B z u e = Some false.
+  Proof. intros [E|E]; unfold elog_verify; rewrite E; rewrite ?orb_true_r; cbn [orb negb]; guards. Qed.
+End ZeroRejected.
